@@ -414,6 +414,8 @@ func (s *Netceptor) DialContext(ctx context.Context, node string, service string
 	}
 	close(okChan)
 	go func() {
+		// the ephemeral socket lives as long as the QUIC connection: Conn.Close only closes
+		// the sending direction of the stream, so it must not end this clean-up
 		select {
 		case <-qc.Context().Done():
 			_ = qs.Close()
@@ -421,8 +423,6 @@ func (s *Netceptor) DialContext(ctx context.Context, node string, service string
 		case <-s.context.Done():
 			_ = qs.Close()
 			_ = pc.Close()
-		case <-doneChan:
-			return
 		}
 	}()
 	conn := &Conn{
